@@ -2,7 +2,7 @@
     Models: Model/C04_Gmod.v (DenseAdditive[Dominance]LinearGenomicModel, DenseLinearGenomicModel, rrBLUPModel0 predictions and
     statistics; TrueBreedingValue), Model/C04_GS.v (gauss_seidel and the non-numerical parts of rrBLUPModel0.fit_numpy). *)
 From Coq Require Import Permutation.
-From PV Require Import Lib.Common Model.C04_Gmod Model.C04_GS Proofs.C04_Counts Proofs.C04_Linear Proofs.C04_Var Proofs.C04_Sums Proofs.C04_Genic Proofs.C04_GS Proofs.C04_Ridge Proofs.C04_Check.
+From PV Require Import Lib.Common Model.C04_Gmod Model.C04_GS Proofs.C04_Counts Proofs.C04_Linear Proofs.C04_Var Proofs.C04_Sums Proofs.C04_Genic Proofs.C04_GS Proofs.C04_Ridge Proofs.C04_Check Proofs.C04_Scale.
 Local Open Scope Q_scope.
 
 (** ** predictions are linear and label-preserving *)
@@ -23,18 +23,19 @@ Proof. exact location_entry. Qed.
 Print Assumptions C04_intercept.
 
 (** Estimated genotypic value = intercept + design row x (u_a ; u_d) ... *)
-Theorem C04_gegv_linear : forall g gt l v lab i k, shaped g -> gegv g gt l = Some (v, lab) ->
-  (i < length (design g gt))%nat -> (k < g_t g)%nat ->
-  nth k (nth i v []) 0 == nth k (location g) 0 + dotQ (map inject_Z (nth i (design g gt) [])) (col 0 k (gv_effects g))
-  /\ lab = gt_labels gt l /\ length v = length (design g gt).
+Theorem C04_gegv_linear : forall g gt arg l v lab i k, shaped g -> gegv g gt arg l = Some (v, lab) ->
+  (i < length (design g gt arg))%nat -> (k < g_t g)%nat ->
+  nth k (nth i v []) 0 == nth k (location g) 0 + dotQ (map inject_Z (nth i (design g gt arg) [])) (col 0 k (gv_effects g))
+  /\ lab = gt_labels gt l /\ length v = length (design g gt arg).
 Proof. exact gegv_entry. Qed.
 Print Assumptions C04_gegv_linear.
 
-(** ... which for a dominance model is dosage x u_a + heterozygosity indicators x u_d *)
-Theorem C04_gegv_dominance_split : forall g gt i k, g_cls g = CAD -> (i < length (dosage gt))%nat ->
+(** ... which for a dominance model is dosage x u_a + heterozygosity indicators x u_d ([arg] is the ploidy keyword that
+    accompanies a raw array; matrix objects carry their own ploidy) *)
+Theorem C04_gegv_dominance_split : forall g gt arg i k, g_cls g = CAD -> (i < length (dosage gt))%nat ->
   length (nth i (dosage gt) []) = length (g_ua g) ->
-  dotQ (map inject_Z (nth i (design g gt) [])) (col 0 k (gv_effects g)) ==
-  dotQ (map inject_Z (nth i (dosage gt) [])) (col 0 k (g_ua g)) + dotQ (map inject_Z (nth i (het gt) [])) (col 0 k (g_ud g)).
+  dotQ (map inject_Z (nth i (design g gt arg) [])) (col 0 k (gv_effects g)) ==
+  dotQ (map inject_Z (nth i (dosage gt) [])) (col 0 k (g_ua g)) + dotQ (map inject_Z (nth i (het gt arg) [])) (col 0 k (g_ud g)).
 Proof. exact gegv_dominance_split. Qed.
 Print Assumptions C04_gegv_dominance_split.
 
@@ -46,13 +47,13 @@ Print Assumptions C04_predict_linear.
 
 (** Reordering the taxa of the input (phased, unphased or raw; any index list in range, in particular every permutation, also
     with repeated taxa) reorders values and labels of gebv / gegv / predict in the same way. *)
-Theorem C04_perm_equivariant : forall g gt l ix, gt_ok gt -> in_range (length (dosage gt)) ix ->
+Theorem C04_perm_equivariant : forall g gt arg l ix, gt_ok gt -> in_range (length (dosage gt)) ix ->
   (forall v lab, gebv g gt l = Some (v, lab) -> gebv g (gt_take ix gt) (lab_take ix l) = Some (takes [] ix v, lab_take ix lab)) /\
-  (forall v lab, gegv g gt l = Some (v, lab) -> gegv g (gt_take ix gt) (lab_take ix l) = Some (takes [] ix v, lab_take ix lab)) /\
-  (forall X v lab, length X = length (dosage gt) -> predict g X gt l = Some (v, lab) ->
-     predict g (takes [] ix X) (gt_take ix gt) (lab_take ix l) = Some (takes [] ix v, lab_take ix lab)).
+  (forall v lab, gegv g gt arg l = Some (v, lab) -> gegv g (gt_take ix gt) arg (lab_take ix l) = Some (takes [] ix v, lab_take ix lab)) /\
+  (forall X v lab, length X = length (dosage gt) -> predict g X gt arg l = Some (v, lab) ->
+     predict g (takes [] ix X) (gt_take ix gt) arg (lab_take ix l) = Some (takes [] ix v, lab_take ix lab)).
 Proof.
-  intros g gt l ix Hok R. repeat split; intros.
+  intros g gt arg l ix Hok R. repeat split; intros.
   - now apply gebv_equivariant.
   - now apply gegv_equivariant.
   - now apply predict_equivariant.
@@ -76,18 +77,40 @@ Theorem C04_representations_agree : forall g n p ph k l,
 Proof. intros. subst d. unfold gebv, var_A. cbn [dosage]. repeat split; destruct (gebv_numpy g (ph_sum n p ph)); reflexivity. Qed.
 Print Assumptions C04_representations_agree.
 
-(** The raw-array path of the dominance model codes heterozygotes as (dosage == 1): it agrees with the matrix coding
-    (dosage != 0) & (dosage != ploidy) for diploid data ... *)
-Theorem C04_dominance_raw_diploid_partial : forall m : zmat, Forall (Forall (fun a => 0 <= a <= 2)%Z) m -> het (GRaw m) = het (GUnphased 2 m).
-Proof. exact het_raw_vs_matrix_diploid. Qed.
-Print Assumptions C04_dominance_raw_diploid_partial.
+(** The heterozygosity indicator is 1 exactly on the dosages strictly between 0 and the ploidy, 0 on the two homozygotes ... *)
+Theorem C04_heterozygosity_indicator : forall ploidy a : Z, (0 <= a <= ploidy)%Z ->
+  (het1 ploidy a = 1%Z <-> (0 < a < ploidy)%Z) /\ (het1 ploidy a = 0%Z <-> (a = 0 \/ a = ploidy)%Z).
+Proof. exact het1_spec. Qed.
+Print Assumptions C04_heterozygosity_indicator.
 
-(** ... and for no other ploidy in general: the representation clause of the property fails for gegv of polyploid / haploid
-    raw arrays (finding C04-dominance-raw-diploid) *)
-Theorem C04_dominance_raw_refuted : (exists ploidy a : Z, (0 <= a <= ploidy)%Z /\ het_raw1 a <> het1 ploidy a) /\
-  (exists a : Z, (0 <= a <= 1)%Z /\ het_raw1 a <> het1 1 a).
-Proof. split; [exact het_raw_not_polyploid | exact het_raw_not_haploid]. Qed.
-Print Assumptions C04_dominance_raw_refuted.
+(** ... and the dominance model builds the same design from a raw dosage array handed over with its ploidy as from the matrix
+    object (unphased, or phased) holding the same data, for EVERY ploidy; an array without the keyword is read as diploid.  Hence
+    gegv / predict / score / var_G agree between the representations (formerly only for diploid data: finding
+    C04-dominance-raw-diploid, repaired). *)
+Theorem C04_dominance_raw_matches_matrix : forall g (m : zmat) (k : Z) arg l X Y,
+  het (GRaw m) (Some k) = het (GUnphased k m) arg /\ het (GRaw m) None = het (GUnphased 2 m) arg /\
+  design g (GRaw m) (Some k) = design g (GUnphased k m) arg /\
+  option_map fst (gegv g (GRaw m) (Some k) l) = option_map fst (gegv g (GUnphased k m) arg l) /\
+  option_map fst (predict g X (GRaw m) (Some k) l) = option_map fst (predict g X (GUnphased k m) arg l) /\
+  score g Y X (GRaw m) (Some k) = score g Y X (GUnphased k m) arg /\
+  var_G g (GRaw m) (Some k) = var_G g (GUnphased k m) arg.
+Proof.
+  intros. split; [apply het_raw_vs_matrix|]. split; [apply het_raw_default|]. split; [apply design_raw_vs_matrix|]. apply raw_vs_matrix_methods.
+Qed.
+Print Assumptions C04_dominance_raw_matches_matrix.
+
+Theorem C04_dominance_raw_matches_phased : forall n p ph arg,
+  het (GRaw (dosage (GPhased n p ph))) (Some (Z.of_nat (length ph))) = het (GPhased n p ph) arg.
+Proof. exact het_raw_vs_phased. Qed.
+Print Assumptions C04_dominance_raw_matches_phased.
+
+(** regression witness about the FORMER code: the raw-array path coded heterozygotes as (dosage == 1) [old_het_raw1], which is the
+    matrix coding for diploid data (so the repair leaves diploid results unchanged) and for no other ploidy *)
+Theorem C04_old_dominance_raw_refuted : (forall a : Z, (0 <= a <= 2)%Z -> old_het_raw1 a = het1 2 a) /\
+  (exists ploidy a : Z, (0 <= a <= ploidy)%Z /\ old_het_raw1 a <> het1 ploidy a) /\
+  (exists a : Z, (0 <= a <= 1)%Z /\ old_het_raw1 a <> het1 1 a).
+Proof. split; [exact old_het_raw_diploid|]. split; [exact old_het_raw_not_polyploid | exact old_het_raw_not_haploid]. Qed.
+Print Assumptions C04_old_dominance_raw_refuted.
 
 (** Splitting the markers into two parts (two models holding u[:k] and u[k:]) and adding the two predictions gives the
     prediction from all markers. *)
@@ -109,7 +132,7 @@ Theorem C04_var_A_definition : forall g gt l vA v lab k, shaped g -> var_A g gt 
 Proof. exact var_A_is_variance_of_gebv. Qed.
 Print Assumptions C04_var_A_definition.
 
-Theorem C04_var_G_definition : forall g gt l vG v lab k, shaped g -> var_G g gt = Some vG -> gegv g gt l = Some (v, lab) -> (k < g_t g)%nat ->
+Theorem C04_var_G_definition : forall g gt arg l vG v lab k, shaped g -> var_G g gt arg = Some vG -> gegv g gt arg l = Some (v, lab) -> (k < g_t g)%nat ->
   nth k vG 0 == popvar (col 0 k v).
 Proof. exact var_G_is_variance_of_gegv. Qed.
 Print Assumptions C04_var_G_definition.
@@ -120,10 +143,10 @@ Proof. intros l. split; [apply popvar_nonneg | apply popvar_zero_iff]. Qed.
 Print Assumptions C04_variance_sound.
 
 (** var_A and var_G do not depend on the order of the taxa *)
-Theorem C04_variance_perm_invariant : forall g gt ix, gt_ok gt -> Permutation ix (seq 0 (length (dosage gt))) ->
+Theorem C04_variance_perm_invariant : forall g gt arg ix, gt_ok gt -> Permutation ix (seq 0 (length (dosage gt))) ->
   (forall vA, var_A g gt = Some vA -> exists vA', var_A g (gt_take ix gt) = Some vA' /\ qeql vA' vA) /\
-  (forall vG, var_G g gt = Some vG -> exists vG', var_G g (gt_take ix gt) = Some vG' /\ qeql vG' vG).
-Proof. intros g gt ix Hok P. split; intros; [now apply var_A_perm | now apply var_G_perm]. Qed.
+  (forall vG, var_G g gt arg = Some vG -> exists vG', var_G g (gt_take ix gt) arg = Some vG' /\ qeql vG' vG).
+Proof. intros g gt arg ix Hok P. split; intros; [now apply var_A_perm | now apply var_G_perm]. Qed.
 Print Assumptions C04_variance_perm_invariant.
 
 (** genic variance of trait k = ploidy^2 * sum_j u_jk^2 p_j (1 - p_j) with p_j = allele count / (ploidy * ntaxa); it is
@@ -153,6 +176,27 @@ Theorem C04_bulmer_definition : forall g gt arg l vA k, var_A g gt = Some vA -> 
 Proof. exact bulmer_entry. Qed.
 Print Assumptions C04_bulmer_definition.
 
+(** Scale covariance: if trait k of a second model has c times the effects of trait k of the first ([col_scaled]), then on every
+    genotype input its var_A and var_a are c^2 times those of the first model ... *)
+Theorem C04_variance_scale_covariant : forall g g' gt arg k c vA vA', shaped g -> shaped g' -> g_t g' = g_t g -> (k < g_t g)%nat ->
+  col_scaled k c (bv_effects g') (bv_effects g) -> var_A g gt = Some vA -> var_A g' gt = Some vA' ->
+  nth k vA' 0 == c * c * nth k vA 0 /\ nth k (var_a g' gt arg) 0 == c * c * nth k (var_a g gt arg) 0.
+Proof. exact variance_scaled. Qed.
+Print Assumptions C04_variance_scale_covariant.
+
+(** ... and for c <> 0 its Bulmer ratio is the same: NaN against NaN, equal ratios otherwise — however small or large c is.  The only
+    special value of the genic variance is exactly zero (a test such as "close to zero" would break this). *)
+Theorem C04_bulmer_scale_invariant : forall g g' gt arg k c b b', shaped g -> shaped g' -> g_t g' = g_t g -> (k < g_t g)%nat ->
+  col_scaled k c (bv_effects g') (bv_effects g) -> ~ c == 0 ->
+  bulmer g gt arg = Some b -> bulmer g' gt arg = Some b' -> opt_qeq (nth k b' None) (nth k b None).
+Proof. exact bulmer_scaled. Qed.
+Print Assumptions C04_bulmer_scale_invariant.
+
+(** the variance itself: var(c x) = c^2 var(x) *)
+Theorem C04_popvar_scale : forall c l, popvar (map (Qmult c) l) == c * c * popvar l.
+Proof. exact popvar_scale. Qed.
+Print Assumptions C04_popvar_scale.
+
 (** coefficient of determination: 1 - SSE/SST (undefined iff SST = 0), at most 1, equal to 1 exactly for a perfect prediction *)
 Theorem C04_score_definition : forall y yhat,
   (rsq y yhat = None <-> sqdev (qmean y) y == 0) /\
@@ -164,11 +208,15 @@ Print Assumptions C04_score_definition.
 
 (** ** allele statistics *)
 
-(** every entry of the twelve fa*/da*/na* tables is its definition on (u_jk, allele count of marker j, ploidy*ntaxa) *)
-Theorem C04_allele_tables_definition : forall g gt, g_cls g <> CL -> well_shaped g ->
+(** every entry of the twelve fa*/da*/na* tables is its definition on (u_jk, allele count of marker j, ploidy*ntaxa), for every
+    class — DenseLinearGenomicModel included (formerly excluded: finding C04-dlgm-neutral-alleles, repaired).  Its availability
+    tables test [count != 0] instead of [count > 0]; for that class alone the allele count is taken in its range [0, ploidy*n],
+    which C04_acount_range establishes for every well-formed dosage matrix. *)
+Theorem C04_allele_tables_definition : forall g gt, well_shaped g ->
   Forall (fun r => length r = length (bv_effects g)) (dosage gt) ->
   forall j k, (j < length (bv_effects g))%nat -> (k < g_t g)%nat ->
     let ujk := nth k (nth j (bv_effects g) []) 0%Q in let cj := nth j (acount gt (length (bv_effects g))) 0%Z in let N := maxfav gt in
+    (g_cls g = CL -> (0 <= cj <= N)%Z) ->
     nth k (nth j (facount g gt) []) 0%Z = fa1 ujk cj N /\
     nth k (nth j (dacount g gt) []) 0%Z = da1 ujk cj N /\
     nth k (nth j (faavail g gt) []) false = avail1 (fa1 ujk cj N) /\
@@ -217,15 +265,19 @@ Theorem C04_freqs_consistent : forall (u : Q) (c N : Z), (0 < N)%Z -> ~ (u == 0)
 Proof. exact freqs_consistent. Qed.
 Print Assumptions C04_freqs_consistent.
 
-(** DenseLinearGenomicModel's own facount/dacount: the definitions on non-neutral markers ... *)
-Theorem C04_dlgm_counts_partial : forall (u : Q) (c N : Z), ~ (u == 0)%Q -> fa1_L u c N = fa1 u c N /\ da1_L u c N = da1 u c N.
-Proof. exact L_counts_nonneutral. Qed.
-Print Assumptions C04_dlgm_counts_partial.
+(** DenseLinearGenomicModel's own facount/dacount are the same functions of (effect, allele count, ploidy*n) as those of the
+    additive classes, neutral markers included, so that C04_counts_by_sign ... C04_freqs_consistent hold for it as they stand *)
+Theorem C04_dlgm_counts : forall g (u : Q) (c N : Z), fa_of g u c N = fa1 u c N /\ da_of g u c N = da1 u c N.
+Proof. intros. now destruct (fa_of_all g) as [-> ->]. Qed.
+Print Assumptions C04_dlgm_counts.
 
-(** ... but a neutral allele is counted both as favourable and as deleterious (finding C04-dlgm-neutral-alleles) *)
-Theorem C04_dlgm_counts_refuted : exists (u : Q) (c N : Z), (0 <= c <= N)%Z /\ (u == 0)%Q /\ fa1_L u c N <> fa1 u c N /\ da1_L u c N <> da1 u c N /\ (fa1_L u c N + da1_L u c N)%Z <> 0%Z.
-Proof. exact L_counts_neutral_refuted. Qed.
-Print Assumptions C04_dlgm_counts_refuted.
+(** regression witness about the FORMER code [old_fa1_L], [old_da1_L] (no reset where u == 0): right on non-neutral markers, but
+    a neutral allele was counted both as favourable and as deleterious *)
+Theorem C04_old_dlgm_counts_refuted :
+  (forall (u : Q) (c N : Z), ~ (u == 0)%Q -> old_fa1_L u c N = fa1 u c N /\ old_da1_L u c N = da1 u c N) /\
+  (exists (u : Q) (c N : Z), (0 <= c <= N)%Z /\ (u == 0)%Q /\ old_fa1_L u c N <> fa1 u c N /\ old_da1_L u c N <> da1 u c N /\ (old_fa1_L u c N + old_da1_L u c N)%Z <> 0%Z).
+Proof. split; [exact old_L_counts_nonneutral | exact old_L_counts_neutral_refuted]. Qed.
+Print Assumptions C04_old_dlgm_counts_refuted.
 
 (** allele counts of a well-formed dosage matrix lie in [0, ploidy*n] (hypothesis of the two theorems above) *)
 Theorem C04_acount_range : forall (ploidy : Z) (p : nat) (mat : zmat), (0 <= ploidy)%Z ->
@@ -333,17 +385,16 @@ Print Assumptions C04_rr_defined.
 Example C04_hyps_satisfiable :
   let g := build CAD [[1; 2]; [3; 4]] None [[1; 0]; [-1; 2]] (Some [[0; 1]; [1; 0]]) 2 in
   let gt := GPhased 2 2 [[[0; 1]; [1; 1]]; [[0; 0]; [1; 0]]]%Z in
-  shaped g /\ well_shaped g /\ g_cls g <> CL /\ gt_ok gt /\ in_range (length (dosage gt)) [1; 0]%nat /\
+  shaped g /\ well_shaped g /\ gt_ok gt /\ in_range (length (dosage gt)) [1; 0]%nat /\
   Permutation [1; 0]%nat (seq 0 (length (dosage gt))) /\
   Forall (fun r => length r = length (bv_effects g)) (dosage gt) /\
-  (exists v lab, gebv g gt (None, None) = Some (v, lab)) /\ (exists v lab, gegv g gt (None, None) = Some (v, lab)) /\
+  (exists v lab, gebv g gt (None, None) = Some (v, lab)) /\ (exists v lab, gegv g gt None (None, None) = Some (v, lab)) /\
   (exists x, gauss_seidel [[2; 1]; [1; 3]] [1; 2] (1 # 100) 50 = Some x /\ qform [[2; 1]; [1; 3]] [1; 2] x < 0) /\
   (exists beta u, rr_fit1 2 [[0; 1]; [1; 1]; [2; 1]; [1; 1]]%Z [1; 2; 4; 2] (1 # 2) (1 # 100) 50 = Some (beta, u) /\ nth 1 u 7 = 0).
 Proof.
   cbv zeta. unfold shaped, well_shaped, rows_len, gt_ok, phases_ok, rows_len, in_range.
   split; [cbn; repeat first [ split | constructor | reflexivity ]|].
   split; [cbn; repeat first [ constructor | reflexivity ]|].
-  split; [cbn; discriminate|].
   split; [cbn; repeat first [ split | constructor | reflexivity ]|].
   split; [cbn; repeat first [ constructor | lia ]|].
   split; [cbn; apply perm_swap|].
@@ -353,4 +404,19 @@ Proof.
   split.
   - eexists. split; [vm_compute; reflexivity | vm_compute; reflexivity].
   - eexists; eexists. split; [vm_compute; reflexivity | reflexivity].
+Qed.
+
+(** the hypotheses of the scale theorems are met by a two-trait model whose second trait is scaled by 2^-40, with a defined,
+    non-NaN Bulmer ratio *)
+Example C04_scale_hyps_satisfiable :
+  let g := build CA [[1; 1]] None [[1; 3]; [-2; 1]] None 2 in
+  let g' := build CA [[1; 1 # 1099511627776]] None [[1; 3 # 1099511627776]; [-2; 1 # 1099511627776]] None 2 in
+  let gt := GUnphased 2 [[0; 1]; [1; 2]; [2; 2]]%Z in
+  shaped g /\ shaped g' /\ g_t g' = g_t g /\ col_scaled 1 (1 # 1099511627776) (bv_effects g') (bv_effects g) /\
+  (exists b b' x, bulmer g gt None = Some b /\ bulmer g' gt None = Some b' /\ nth 1 b' None = Some x).
+Proof.
+  cbv zeta. split; [cbn; repeat first [ split | constructor | reflexivity ]|]. split; [cbn; repeat first [ split | constructor | reflexivity ]|].
+  split; [reflexivity|]. split.
+  - split; [reflexivity|]. intros [|[|j]] Hj; cbn in *; try lia; reflexivity.
+  - eexists; eexists; eexists. split; [vm_compute; reflexivity|]. split; vm_compute; reflexivity.
 Qed.
